@@ -93,6 +93,36 @@ Theorem C13_accepted_bodies_share_checksum : forall stored body body',
 Proof. exact read_page_accepts_only_matching. Qed.
 Print Assumptions C13_accepted_bodies_share_checksum.
 
+(** Why the comparison has to be the full equality: for EVERY non-zero
+    32-bit difference [d] there is a change of the last four bytes of the body
+    (a burst of at most 32 bits, computed by [suffix_fault]: 32 inverse
+    register steps of [d]) after which the checksum of the body is the old one
+    xor [d].  A reader that tolerates any difference [d] between the stored
+    value and the checksum of the body therefore returns an altered body as
+    data.  This is the search the check runs when the stored-checksum faults
+    of the harness find such a tolerance (c13DeriveBodyFault). *)
+Theorem C13_suffix_fault_has_difference : forall pre w d,
+  length w = 4%nat -> bounded d ->
+  crc32 (pre ++ xor_bytes w (suffix_fault d)) = N.lxor (crc32 (pre ++ w)) d.
+Proof. exact crc_suffix_fault. Qed.
+Print Assumptions C13_suffix_fault_has_difference.
+
+Theorem C13_weaker_comparison_lets_a_burst_through : forall pre w d,
+  length w = 4%nat -> is_bytes w -> bounded d -> d <> 0 ->
+  let body := pre ++ w in
+  let body' := pre ++ xor_bytes w (suffix_fault d) in
+  body' <> body /\ length body' = length body /\
+  N.lxor (crc32 body') (crc32 body) = d.
+Proof. exact weaker_comparison_lets_a_burst_through. Qed.
+Print Assumptions C13_weaker_comparison_lets_a_burst_through.
+
+Example C13_ex_suffix_fault :
+  bounded 0x01000000 /\
+  suffix_fault 0x01000000 <> [0; 0; 0; 0] /\
+  crc32 ([1; 2; 3] ++ xor_bytes [4; 5; 6; 7] (suffix_fault 0x01000000))
+  = N.lxor (crc32 [1; 2; 3; 4; 5; 6; 7]) 0x01000000.
+Proof. vm_compute. repeat split; discriminate. Qed.
+
 (* non-vacuity: a non-zero pattern in the field of a page whose checksum is not 0 *)
 Example C13_ex_flipped_field :
   crc32 [1; 2; 3] <> 0 /\ N.lxor (crc32 [1; 2; 3]) 1 <> 0 /\
